@@ -30,7 +30,8 @@ Theorem C10_atomic_reader_safe : forall sched fs tmp target chunks ks,
   wf_afs fs -> tmp <> target ->
   let '(_, r, rp) := irun sched (start fs) (atomic_write tmp target chunks) rstart (reader target ks) in
   (r_enoent r = true /\ r_got r = [] /\ read_name fs target = None) \/
-  (exists d done rest,
+  (r_enoent r = false /\
+   exists d done rest,
      ks = done ++ rest /\ (read_name fs target = Some d \/ d = concat chunks) /\
      r_got r = firstn (sum done) d /\ (rp = [] -> rest = [])).
 Proof. exact atomic_reader_safe. Qed.
@@ -86,7 +87,8 @@ Theorem C10_cache_write_reader_safe : forall sched fs tmp target chunks ks,
   wf_afs fs -> tmp <> target ->
   let '(_, r, rp) := irun sched (start fs) (cache_write tmp target chunks) rstart (reader target ks) in
   (r_enoent r = true /\ r_got r = [] /\ read_name fs target = None) \/
-  (exists d done rest,
+  (r_enoent r = false /\
+   exists d done rest,
      ks = done ++ rest /\ (read_name fs target = Some d \/ d = concat chunks) /\
      r_got r = firstn (sum done) d /\ (rp = [] -> rest = [])).
 Proof. exact cache_write_reader_safe. Qed.
